@@ -28,9 +28,9 @@ def split_obs(line):
     return ident, res, g, t
 
 
-def run(a, prop, wants, fields, what):
+def run(a, prop, wants, fields, what, extra=None, extra_bins=()):
     """wants(shape)->bool selects programs; fields: which of result/gas/trace are compared"""
-    res = c.build(["kv"])
+    res = c.build(["kv"] + list(extra_bins))
     v = c.Verdict(prop, a.tier, a.seed)
     c.check_build(v, res, prop)
     ev = c.base_evidence(prop, a.tier, a.seed, res)
@@ -97,4 +97,6 @@ def run(a, prop, wants, fields, what):
         "observations_compared": nobs, "mismatching_programs": bad,
         "op_distribution": json.load(open(os.path.join(out, "kv.stats.json"))),
     })
+    if extra is not None:
+        extra(a, v, res, cov)
     return v.finish(ev)
